@@ -34,6 +34,7 @@ inline World genWorld(Src &s, bool unfinishedBlocks) {
         }
         if (s.prob(1, 10)) { OItem x; x.kind = O_ERRPUSH; x.code = -221; sc.items.insert(sc.items.begin() + (long) s.range(0, sc.items.size()), x); }
         sc.retOk = !s.prob(1, 10);
+        sc.noHandler = s.prob(1, 10);          // an accept-and-ignore entry: the table holds no callback for it (the library allows that)
         sc.numbers = refNumericCount(refParsePattern(w.table[i].text));
         sc.probeSelf = true;
         w.scripts.push_back(sc);
